@@ -102,6 +102,19 @@ CASES = [
     ("return: every value is hung again from the first one", "src/formatters/block.rs", "let expression = hang_expression(ctx, original, shape, Some(1));", "let expression = hang_expression(ctx, returns.iter().next().unwrap(), shape, Some(1));", "assign", "default", "format_return"),
     ("harmless: the comments behind `return` are looked for on every value (only the first can have them moved there)", "src/formatters/block.rs", "if comment_between_token_and_returns && idx == 0 {", "if comment_between_token_and_returns {", "assign", "default", "ok"),
     ("harmless: the one-line candidate is preferred whenever it fits", "src/formatters/assignment.rs", "            if expression.has_inline_comments()\n                || hanging_shape.used_width() < formatting_shape.used_width()", "            if expression.has_inline_comments()\n                || formatting_shape.used_width() >= hanging_shape.used_width()", "assign", "default", "ok"),
+    ("trivia: update_leading_trivia hands the trivia to the trailing side", "src/formatters/trivia.rs", "self.update_trivia(leading_trivia, FormatTriviaType::NoChange)", "self.update_trivia(FormatTriviaType::NoChange, leading_trivia)", "trivia", "default", "C03.update_leading_trivia_contract"),
+    ("trivia: a token loses its trailing trivia when only the leading ones are asked for", "src/formatters/trivia.rs", "            FormatTriviaType::NoChange => self.trailing_trivia().map(|x| x.to_owned()).collect(),", "            FormatTriviaType::NoChange => vec![],", "trivia", "default", "C03.update_trivia_contract"),
+    ("trivia: Replace appends", "src/formatters/trivia.rs", "            FormatTriviaType::Replace(trivia) => trivia,\n            FormatTriviaType::NoChange => self.leading_trivia()", "            FormatTriviaType::Replace(trivia) => { let mut current: Vec<Token> = self.leading_trivia().map(|x| x.to_owned()).collect(); current.extend(trivia); current }\n            FormatTriviaType::NoChange => self.leading_trivia()", "trivia", "default", "C03.update_trivia_contract"),
+    ("trivia: a list drops its separators behind the first item", "src/formatters/trivia.rs", "                pair.punctuation().map(|x| x.to_owned()),\n            ))", "                None,\n            ))", "trivia", "default", "C03.list_update_loop"),
+    ("trivia: the leading trivia of a binary expression go to the right operand", "src/formatters/trivia.rs", "            lhs: Box::new(lhs.update_leading_trivia(leading)),\n            binop: binop.to_owned(),\n            rhs: rhs.to_owned(),", "            lhs: lhs.to_owned(),\n            binop: binop.to_owned(),\n            rhs: Box::new(rhs.update_leading_trivia(leading)),", "trivia", "default", "C03.update_leading_trivia_contract"),
+    ("trivia: the trailing trivia of an assignment go to its variables", "src/formatters/trivia.rs", "        .with_variables(this.variables().update_leading_trivia(leading))\n        .with_expressions(this.expressions().update_trailing_trivia(trailing))", "        .with_variables(this.variables().update_leading_trivia(trailing))\n        .with_expressions(this.expressions().update_trailing_trivia(leading))", "trivia", "default", "C03.update_trivia_contract"),
+    ("trivia: `//` listed under lua53 only (D42): a build with the luau feature alone reaches the panic", "src/formatters/trivia.rs", "        #[cfg(any(feature = \"luau\", feature = \"lua53\"))]\n        DoubleSlash,", "        #[cfg(feature = \"lua53\")]\n        DoubleSlash,", "trivia", "luau", "update_trivia"),
+    ("harmless: `//` listed under lua53 only is no problem for the two feature sets that have both or neither", "src/formatters/trivia.rs", "        #[cfg(any(feature = \"luau\", feature = \"lua53\"))]\n        DoubleSlash,", "        #[cfg(feature = \"lua53\")]\n        DoubleSlash,", "trivia", "all", "ok"),
+    ("harmless: ContainedSpan binds its tokens one by one", "src/formatters/trivia.rs", "    let (start_token, end_token) = this.tokens();\n    ContainedSpan::new(", "    let tokens = this.tokens();\n    let start_token = tokens.0;\n    let end_token = tokens.1;\n    ContainedSpan::new(", "trivia", "default", "ok"),
+    ("last statement: a return loses its values", "src/formatters/block.rs", "LastStmt::Return(return_node) => LastStmt::Return(format_return(ctx, return_node, shape)),", "LastStmt::Return(_return_node) => LastStmt::Return(Return::new()),", "assign", "default", "C02.last_stmt_same"),
+    ("compound assignment: `-=` printed as `+=`", "src/formatters/luau.rs", "        MinusEqual = \" -= \",", "        MinusEqual = \" += \",", "assign", "all", "C02.compound_op_prints_the_operator"),
+    ("compound assignment: value and variable swapped is a type error, the value formatted twice is not", "src/formatters/luau.rs", "    CompoundAssignment::new(lhs, compound_operator, rhs)", "    CompoundAssignment::new(lhs, compound_operator, format_expression(ctx, &Expression::Var(compound_assignment.lhs().to_owned()), shape))", "assign", "all", "C02.compound_assignment_same"),
+    ("goto: the label is formatted from the goto token", "src/formatters/lua52.rs", "    let label_name = format_token_reference(ctx, goto.label_name(), shape);\n\n    Goto::new(label_name)", "    let label_name = format_token_reference(ctx, goto.goto_token(), shape);\n\n    Goto::new(label_name)", "assign", "all", "C02.goto_label_same"),
     # a predicate moved into a new helper next to the function: the helper is inlined (gen.InlineHelper) and verified as part of the caller
     ("helper: the sugar decision moved into a helper that forgets the Input exception", FU, [FA_DOC, FA_STR, FA_TAB], [HELPER_BAD + FA_DOC, FA_STR_H, FA_TAB_H], "args", "default", "C11.input_keeps_form"),
     ("harmless: the sugar decision moved into a helper (with a binding and an early return)", FU, [FA_DOC, FA_STR, FA_TAB], [HELPER_OK + FA_DOC, FA_STR_H, FA_TAB_H], "args", "default", "ok"),
